@@ -6,8 +6,19 @@ id; sorted(set) independent of the enumeration).  The part that can find failure
 every subcommand that writes a VCF/BAM/TSV is run on the same generated input under several PYTHONHASHSEED
 values, thread counts and twice, and the outputs are compared record for record (command-line header / @PG CL
 removed; header definition lines compared as a multiset — their order is F6, an observation).
+
+Round 7: besides the plain invocation of every subcommand, the non-default branches of its argument parser that touch
+per-sample / per-family / per-chromosome state are run as well (`subcommands()`: "option variants": genotype --no-priors /
+--ped / --use-ped-samples / --prioroutput / several --sample / --ignore-read-groups; phase --algorithm heuristic|hapchat,
+--use-ped-samples --distrust-genotypes with all three lists on wrong genotypes, --sample/--chromosome/--tag HP, --merge-reads,
+--ignore-read-groups, --no-genetic-haplotyping; haplotag --ignore-read-groups with several --sample, --tag-supplementary and
+linked reads (BX), --ignore-linked-read; polyphase --distrust-genotypes --include-haploid-sets, --sample/--chromosome, ...;
+compare/stats/split/haplotagphase/unphase options), and the hash seeds are no longer 0, 1, random but chosen per subcommand
+so that the sets of names it iterates over come in different orders (c16_inputs.covering_seeds).  All runs of one input are
+executed by a small pool of worker threads (independent processes).
 """
-import collections, contextlib, io, itertools, json, os, shutil
+import collections, contextlib, gzip, io, itertools, json, os, shutil, sys
+from concurrent.futures import ThreadPoolExecutor
 
 import pysam
 
@@ -16,7 +27,7 @@ from harness.gen import sim, c15_poly, c16_inputs
 LEVEL = "other"
 EXPLANATION = ("No executable model can exhibit CPython's hash randomisation, multiprocessing scheduling or htslib's "
                "compression threads, so the property itself is explored, not proved: each writing subcommand is re-run "
-               "on identical generated inputs under PYTHONHASHSEED in {0,1,2,random,...}, --threads 1..4 (polyphase), "
+               "on identical generated inputs under PYTHONHASHSEED in {0, seeds that reorder the name sets, random,...}, --threads 1..4 (polyphase), "
                "--output-threads 1..4 (haplotag) and repeated, and all outputs must be record-for-record identical. "
                "Lean proves only the logical core: the places where the code re-establishes an order (ReadSet::sort's "
                "comparator, sort by block id, sorted(set)) yield a result that is a function of the multiset. Not "
@@ -37,8 +48,12 @@ MANIFEST = dict(
          "whatever order the reads arrive in (selection_outcomes_order_independent; composed with the C07 model of "
          "readselection), a tie witness and uniqueness of the outcome when no tie is decisive "
          "plus schedule/seed exploration: phase, phase --ped --use-ped-samples, genotype, polyphase, haplotag, unphase, "
-         "stats, compare, split, haplotagphase re-run on identical generated inputs under different PYTHONHASHSEED "
-         "values, --threads / --output-threads 1..4 and repeated; outputs compared record for record",
+         "stats, compare, split, haplotagphase and about 30 option variants of them (the non-default parser branches that "
+         "touch per-sample / per-family / per-chromosome state: --no-priors, --ped, --use-ped-samples, several --sample, "
+         "--ignore-read-groups, --algorithm, --distrust-genotypes with all lists, --tag-supplementary, linked reads, ...) "
+         "re-run on identical generated multi-sample multi-chromosome inputs under PYTHONHASHSEED values chosen so that the "
+         "sets of sample names come in different iteration orders, --threads / --output-threads 1..4 and repeated; outputs "
+         "compared record for record",
     design_ref="DESIGN.md §5 C16",
     note="NOT a proof of the property: hash randomisation, worker scheduling and compression threads cannot be exhibited "
          "by the model; evidence is the exploration (bounded by seeds/thread counts/inputs tried). F6 (order of added "
@@ -52,12 +67,28 @@ ASSUMPTIONS = ["std::hash<std::string> is deterministic across processes (libstd
                "header definition lines are compared as a multiset (order = F6, observation)",
                "BAM record-order runs: read names are unique (twin alignments get their own names); a different ORDER OF INPUT FILES "
                "changes the source ids, which are part of ReadSet::sort's key: differences there are reported as observations",
-               "c16.select: std::hash of (name, source id) is replaced by the rank the implementation's own sort assigned"]
+               "c16.select: std::hash of (name, source id) is replaced by the rank the implementation's own sort assigned",
+               "covering seeds: the iteration order of a str set under a PYTHONHASHSEED is probed with the same interpreter "
+               "(set built from a list, by add, by intersection); whatshap may build its sets by other routes, the probe only "
+               "steers the choice of seeds, every comparison is between real runs",
+               "option variants whose command fails under EVERY seed (a deterministic defect, not this property) are "
+               "reported as observations"]
 
 K_F47 = "F47-compare-multiway-sample-column-set-order"
+K_F110 = "F110-haplotag-ignore-read-groups-sample-set-order"
+K_F111 = "F111-phase-heuristic-use-ped-samples-member-order"
+K_F112 = "F112-changed-genotype-list-row-order-use-ped-samples"
+K_FC16A = "FC16a-genotype-family-gl-rounding-member-order"
 
-SEEDS_QUICK = ["0", "1", "random", "0"]            # last one = repetition of the baseline configuration
-SEEDS_THOROUGH = ["0", "1", "2", "3", "7", "42", "1000", "4294967295", "random", "random", "0", "1"]
+# Hash seeds: "0" is the baseline; "C" stands for the next seed of the subcommand's COVERING list (c16_inputs.covering_seeds:
+# seeds under which the sets of sample names this run iterates over come in different orders - every member first / last,
+# every pair both ways); the last "0" = the baseline configuration once more (another output directory)
+SEEDS_QUICK = ["0", "C", "C", "random", "0"]
+SEEDS_THOROUGH = ["0", "C", "C", "C", "C", "C", "C", "7", "42", "4294967295", "random", "random", "0", "1"]
+SEEDS_LIGHT_QUICK = ["0", "C", "C", "C"]            # option variants (no repetition in the quick tier)
+SEEDS_LIGHT_THOROUGH = ["0", "C", "C", "C", "C", "C", "C", "random", "0"]
+SEED_POOL = range(48)
+JOBS = int(os.environ.get("VERIF_C16_JOBS") or max(2, min(6, (os.cpu_count() or 2) // 2)))
 
 
 # ------------------------------------------------------------------------------------------------
@@ -122,24 +153,30 @@ def prepare_inputs(ctx, case, d):
     P["ploidy"] = list(poly.ploidy.values())[0]
     # the same polyploid data with pre-phased stretches (true haplotype order, PS) for the FIRST sample only: with
     # --use-prephasing one sample has phased blocks and the other has none (per-sample state must not leak)
-    precs = poly.vcf_records()
-    idx = 0
-    s0 = poly.samples[0]
-    for name in poly.contigs:
-        nv = len(poly.variants[name])
-        for i in range(nv):
-            r = precs[idx]; idx += 1
-            r["format"] = ["GT", "PS"]
-            for c in r["calls"]:
-                c["PS"] = "."
-            col = [h[i] for h in poly.haps[f"{s0}|{name}"]]
-            first_contig = name == list(poly.contigs)[0]
-            block = 0 if first_contig else i // 3     # first contig: ONE stretch across the coverage gap
-            if (first_contig or block % 2 == 0) and len(set(col)) > 1 and "." not in r["calls"][0]["GT"]:
-                r["calls"][0] = {"GT": "|".join(map(str, col)), "PS": poly.variants[name][3 * block]["pos"] + 1}
+    def prephased(si):
+        precs = poly.vcf_records()
+        idx = 0
+        s0 = poly.samples[si]
+        for name in poly.contigs:
+            nv = len(poly.variants[name])
+            for i in range(nv):
+                r = precs[idx]; idx += 1
+                r["format"] = ["GT", "PS"]
+                for c in r["calls"]:
+                    c["PS"] = "."
+                col = [h[i] for h in poly.haps[f"{s0}|{name}"]]
+                first_contig = name == list(poly.contigs)[0]
+                block = 0 if first_contig else i // 3     # first contig: ONE stretch across the coverage gap
+                if (first_contig or block % 2 == 0) and len(set(col)) > 1 and "." not in r["calls"][si]["GT"]:
+                    r["calls"][si] = {"GT": "|".join(map(str, col)), "PS": poly.variants[name][3 * block]["pos"] + 1}
+        return precs
     P["pvcf_pre"] = os.path.join(d, "poly", "in_pre.vcf")
-    sim.write_vcf(P["pvcf_pre"], poly.contigs, poly.all_samples(), precs,
-                  fmt_defs={"PS": '##FORMAT=<ID=PS,Number=1,Type=Integer,Description="Phase set">'})
+    # ... and with the roles exchanged (only the LAST sample pre-phased): whichever sample the run happens to take first,
+    # one of the two files has the sample without phased blocks in front of the pre-phased one
+    P["pvcf_pre2"] = os.path.join(d, "poly", "in_pre2.vcf")
+    for path, si in ((P["pvcf_pre"], 0), (P["pvcf_pre2"], len(poly.samples) - 1)):
+        sim.write_vcf(path, poly.contigs, poly.all_samples(), prephased(si),
+                      fmt_defs={"PS": '##FORMAT=<ID=PS,Number=1,Type=Integer,Description="Phase set">'})
     # derived inputs, produced once with the baseline configuration
     env0 = {"PYTHONHASHSEED": "0"}
 
@@ -176,10 +213,50 @@ def prepare_inputs(ctx, case, d):
     must(["haplotag", P["phasedA_gz"], P["bam"], "-o", P["tagged"], "--reference", P["fa"], "--output-haplotag-list",
           P["taglist"]])
     pysam.index(P["tagged"])
+    # ---- round 7: inputs of the option variants ------------------------------------------------------------------
+    seed = int(case.get("digest") or 0)
+    P["samples"] = list(fam.samples)
+    P["contig_names"] = list(fam.contigs)
+    P["pcontig_names"] = list(poly.contigs)
+    P["psamples"] = list(poly.samples)
+    P["ped1"] = os.path.join(fd, "fam1.ped")
+    with open(P["ped1"], "w") as f:
+        f.write(c16_inputs.ped1_text())
+    P["vcf_noisy"] = os.path.join(fd, "in_noisy.vcf")
+    c16_inputs.noisy_vcf(P["vcf"], P["vcf_noisy"], seed)
+    P["bam_supp"] = os.path.join(fd, "in_supp.bam")
+    P["n_supp"], P["n_bx"] = c16_inputs.supp_bam(P["bam"], P["bam_supp"], seed)
+    P["chrlen"] = os.path.join(fd, "chrlen.tsv")
+    with open(P["chrlen"], "w") as f:
+        for name, seq in fam.contigs.items():
+            f.write(f"{name}\t{len(seq)}\n")
+    P["taglist_gz"] = P["taglist"] + ".gz"
+    with open(P["taglist"], "rb") as f, gzip.open(P["taglist_gz"], "wb") as g:
+        g.write(f.read())
+    # a haplotag list that knows only every second read (split --discard-unknown-reads)
+    P["taglist_half"] = os.path.join(fd, "tags_half.tsv")
+    with open(P["taglist"]) as f, open(P["taglist_half"], "w") as g:
+        for i, line in enumerate(f):
+            if line.startswith("#") or i % 2 == 0:
+                g.write(line)
+    if P["singles"]:
+        P["single0_gz"] = P["singles"][0] + ".gz"
+        pysam.tabix_compress(P["singles"][0], P["single0_gz"], force=True)
+        pysam.tabix_index(P["single0_gz"], preset="vcf", force=True)
+    P["polyphased"] = os.path.join(d, "poly", "phased.vcf")
+    must(["polyphase", P["pvcf"], P["pbam"], "--ploidy", P["ploidy"], "-o", P["polyphased"], "--reference", P["pfa"]])
+    # the sets of names the runs iterate over (for the choice of hash seeds)
+    T = c16_inputs.trios()
+    P["sets"] = collections.OrderedDict([
+        ("S", list(fam.samples)), ("T0", list(T[0])), ("T1", list(T[1])), ("PED", [s for t in T for s in t]),
+        ("POLY", list(poly.samples)), ("HT3", [T[0][2], T[1][0], c16_inputs.NAMES[2][0]]),
+        ("SUB", [c16_inputs.NAMES[2][0], T[1][2], T[0][0]]), ("HT2", [T[0][1], T[1][2]]),
+        ("INFO", ["AC", "AN"])])
+    P["probed"] = c16_inputs.probe_orders(list(P["sets"].values()), SEED_POOL, sim.PY)
     return P
 
 
-def subcommands(P, quick):
+def subcommands(P, quick, only=None):
     """name -> (args builder(outdir, threads) -> (args, {label: (path|'<stdout>', kind)}), thread option values)"""
     def phase(o, t):
         return (["phase", P["vcf"], P["bam"], "-o", o + "/out.vcf", "--reference", P["fa"], "--output-read-list",
@@ -212,6 +289,10 @@ def subcommands(P, quick):
 
     def polyphase_pre(o, t):
         return (["polyphase", P["pvcf_pre"], P["pbam"], "--ploidy", P["ploidy"], "-o", o + "/out.vcf", "--reference",
+                 P["pfa"], "--use-prephasing", "-B", "0", "--threads", t], {"vcf": (o + "/out.vcf", "vcf")})
+
+    def polyphase_pre2(o, t):
+        return (["polyphase", P["pvcf_pre2"], P["pbam"], "--ploidy", P["ploidy"], "-o", o + "/out.vcf", "--reference",
                  P["pfa"], "--use-prephasing", "-B", "0", "--threads", t], {"vcf": (o + "/out.vcf", "vcf")})
 
     def haplotag(o, t):
@@ -262,25 +343,223 @@ def subcommands(P, quick):
         return (["haplotagphase", "-o", o + "/out.vcf", "--reference", P["fa"], P["phasedA_gz"], P["tagged"]],
                 {"vcf": (o + "/out.vcf", "vcf")})
 
+    # ---- round 7: the non-default branches of every argument parser that touch per-sample / per-family /
+    # per-chromosome state (whatshap/cli/<cmd>.py add_arguments), on the multi-sample multi-chromosome inputs ----------
+    S = P["sets"]
+    C = P["contig_names"]
+    fam_common = [P["vcf"], P["bam"], "--reference", P["fa"]]
+
+    def sample_args(names):
+        out = []
+        for n_ in names:
+            out += ["--sample", n_]
+        return out
+
+    def phase_algo(algo):
+        def f(o, t):
+            # hapchat: one sample only (its super-reads carry the numeric sample id 0: a second sample fails the check)
+            return (["phase", "--algorithm", algo] + (["--sample", S["S"][0]] if algo == "hapchat" else []) + fam_common +
+                    ["-o", o + "/out.vcf", "--output-read-list", o + "/reads.tsv"],
+                    {"vcf": (o + "/out.vcf", "vcf"), "readlist": (o + "/reads.tsv", "text")})
+        return f
+
+    def phase_heuristic_ped1(o, t):
+        # one trio only: the numeric sample ids of the family are 0, 1, 2 (the heuristic solver needs that)
+        return (["phase", "--algorithm", "heuristic", "--ped", P["ped1"], "--use-ped-samples"] + fam_common +
+                ["-o", o + "/out.vcf", "--output-read-list", o + "/reads.tsv"],
+                {"vcf": (o + "/out.vcf", "vcf"), "readlist": (o + "/reads.tsv", "text")})
+
+    def phase_pedsamples_lists(o, t):
+        # wrong genotypes in several members of a family in one record, distrusted: all three lists
+        return (["phase", "--ped", P["ped"], "--use-ped-samples", P["vcf_noisy"], P["bam"], "--reference", P["fa"], "-o",
+                 o + "/out.vcf", "--distrust-genotypes", "--include-homozygous", "--recombination-list", o + "/recomb.tsv",
+                 "--changed-genotype-list", o + "/gtchanges.tsv", "--output-read-list", o + "/reads.tsv"],
+                {"vcf": (o + "/out.vcf", "vcf"), "recomb": (o + "/recomb.tsv", "text"), "gtchanges": (o + "/gtchanges.tsv", "text"),
+                 "readlist": (o + "/reads.tsv", "text")})
+
+    def phase_samples(o, t):
+        return (["phase"] + sample_args(S["SUB"]) + ["--chromosome", C[-1], "--chromosome", C[0], "--tag", "HP"] + fam_common +
+                ["-o", o + "/out.vcf", "--output-read-list", o + "/reads.tsv"],
+                {"vcf": (o + "/out.vcf", "vcf"), "readlist": (o + "/reads.tsv", "text")})
+
+    def phase_merge_reads(o, t):
+        # one sample (the first one processed: merged reads carry the numeric sample id 0), all chromosomes
+        return (["phase", "--merge-reads", "--only-snvs", "--sample", S["S"][0]] + fam_common + ["-o", o + "/out.vcf", "--output-read-list", o + "/reads.tsv"],
+                {"vcf": (o + "/out.vcf", "vcf"), "readlist": (o + "/reads.tsv", "text")})
+
+    def phase_ignore_rg(o, t):
+        return (["phase", "--ignore-read-groups", "--sample", S["S"][-1], "--indels"] + fam_common + ["-o", o + "/out.vcf"],
+                {"vcf": (o + "/out.vcf", "vcf")})
+
+    def phase_ped_nogenetic(o, t):
+        return (["phase", "--ped", P["ped"], "--no-genetic-haplotyping", "--recombrate", "10", "--chromosome", C[1 % len(C)],
+                 "--chromosome", C[-1]] + fam_common + ["-o", o + "/out.vcf", "--recombination-list", o + "/recomb.tsv"],
+                {"vcf": (o + "/out.vcf", "vcf"), "recomb": (o + "/recomb.tsv", "text")})
+
+    def phase_vcf_input(o, t):
+        return (["phase", P["vcf"], P["bam"], P["phasedB"], "--reference", P["fa"], "-o", o + "/out.vcf", "--output-read-list",
+                 o + "/reads.tsv"], {"vcf": (o + "/out.vcf", "vcf"), "readlist": (o + "/reads.tsv", "text")})
+
+    def phase_supplementary(o, t):
+        return (["phase", "--use-supplementary", "--supplementary-distance", "1000", P["vcf"], P["bam_supp"], "--reference",
+                 P["fa"], "-o", o + "/out.vcf"], {"vcf": (o + "/out.vcf", "vcf")})
+
+    def genotype_nopriors_ped(o, t):
+        return (["genotype", "--no-priors", "--ped", P["ped"], "-H", "6"] + fam_common + ["-o", o + "/out.vcf"],
+                {"vcf": (o + "/out.vcf", "vcf")})
+
+    def genotype_nopriors_pedsamples(o, t):
+        return (["genotype", "--no-priors", "--ped", P["ped"], "--use-ped-samples", "-H", "6"] + fam_common + ["-o", o + "/out.vcf"],
+                {"vcf": (o + "/out.vcf", "vcf")})
+
+    def genotype_ped_prioroutput(o, t):
+        return (["genotype", "--ped", P["ped"], "--use-ped-samples", "-H", "6", "--prioroutput", o + "/priors.vcf"] + fam_common +
+                ["-o", o + "/out.vcf"], {"vcf": (o + "/out.vcf", "vcf"), "priors": (o + "/priors.vcf", "vcf")})
+
+    def genotype_samples(o, t):
+        return (["genotype"] + sample_args(S["SUB"]) + ["--chromosome", C[-1], "--chromosome", C[0], "--gt-qual-threshold", "10",
+                 "--affine-gap"] + fam_common + ["-o", o + "/out.vcf"], {"vcf": (o + "/out.vcf", "vcf")})
+
+    def genotype_ignore_rg(o, t):
+        return (["genotype", "--ignore-read-groups", "--sample", S["S"][-2], "--only-snvs", "--no-priors"] + fam_common +
+                ["-o", o + "/out.vcf"], {"vcf": (o + "/out.vcf", "vcf")})
+
+    def ht(extra, bam=None):
+        def f(o, t):
+            return (["haplotag", P["phasedA_gz"], bam or P["bam"], "-o", o + "/out.bam", "--output-haplotag-list", o + "/tags.tsv"] +
+                    (["--reference", P["fa"]] if "--no-reference" not in extra else []) + extra,
+                    {"bam": (o + "/out.bam", "bam"), "taglist": (o + "/tags.tsv", "text")})
+        return f
+
+    def pp(extra, vcf=None):
+        def f(o, t):
+            return (["polyphase", vcf or P["pvcf"], P["pbam"], "--ploidy", P["ploidy"], "-o", o + "/out.vcf", "--reference",
+                     P["pfa"], "--threads", t] + extra, {"vcf": (o + "/out.vcf", "vcf")})
+        return f
+    PC = P["pcontig_names"]
+
+    def compare_only_snvs(o, t):
+        return (["compare", "--only-snvs", "--tsv-pairwise", o + "/p.tsv", "--switch-error-bed", o + "/e.bed", "--longest-block-tsv",
+                 o + "/lb.tsv", "--sample", c16_inputs.NAMES[1][2], P["phasedA"], P["phasedB"]],
+                {"pairwise": (o + "/p.tsv", "text"), "bed": (o + "/e.bed", "text"), "longest": (o + "/lb.tsv", "text"),
+                 "stdout": ("<stdout>", "text")})
+
+    def compare_poly(o, t):
+        return (["compare", "--ploidy", P["ploidy"], "--tsv-pairwise", o + "/p.tsv", "--sample", P["psamples"][0], "--names",
+                 "truth,polyphase", P["pvcf_pre"], P["polyphased"]],
+                {"pairwise": (o + "/p.tsv", "text"), "stdout": ("<stdout>", "text")})
+
+    def stats_options(o, t):
+        return (["stats", P["phasedB"], "--sample", c16_inputs.NAMES[1][2], "--chr-lengths", P["chrlen"], "--only-snvs",
+                 "--chromosome", C[-1], "--chromosome", C[0], "--tsv", o + "/s.tsv", "--block-list", o + "/blocks.tsv", "--gtf",
+                 o + "/s.gtf"],
+                {"tsv": (o + "/s.tsv", "text"), "blocks": (o + "/blocks.tsv", "text"), "gtf": (o + "/s.gtf", "text"),
+                 "stdout": ("<stdout>", "text")})
+
+    def split_options(o, t):
+        return (["split", "--add-untagged", "--only-largest-block", "--output-h1", o + "/h1.bam", "--output-h2", o + "/h2.bam",
+                 "--read-lengths-histogram", o + "/hist.tsv", P["bam"], P["taglist_gz"]],
+                {"h1": (o + "/h1.bam", "bam"), "h2": (o + "/h2.bam", "bam"), "hist": (o + "/hist.tsv", "text")})
+
+    def split_discard(o, t):
+        return (["split", "--discard-unknown-reads", "--output-h1", o + "/h1.bam", "--output-h2", o + "/h2.bam",
+                 "--output-untagged", o + "/u.bam", "--read-lengths-histogram", o + "/hist.tsv", P["bam"], P["taglist_half"]],
+                {"h1": (o + "/h1.bam", "bam"), "h2": (o + "/h2.bam", "bam"), "untagged": (o + "/u.bam", "bam"),
+                 "hist": (o + "/hist.tsv", "text")})
+
+    def haplotagphase_options(o, t):
+        return (["haplotagphase", "-o", o + "/out.vcf", "--reference", P["fa"], "--chromosome", C[-1], "--chromosome", C[0],
+                 "--gap-threshold", "50", "--cut-poly", "5", P["phasedA_gz"], P["tagged"]], {"vcf": (o + "/out.vcf", "vcf")})
+
+    def haplotagphase_ignore_rg(o, t):
+        return (["haplotagphase", "-o", o + "/out.vcf", "--reference", P["fa"], "--ignore-read-groups", "--no-mav",
+                 P["single0_gz"], P["tagged"]], {"vcf": (o + "/out.vcf", "vcf")})
+
+    def unphase_ped(o, t):
+        return (["unphase", P["phasedB"]], {"vcf": ("<stdout>", "vcf")})
+
     subs = collections.OrderedDict()
-    subs["phase"] = (phase, [None])
-    subs["phase-ped"] = (phase_ped, [None])
-    subs["phase-ped-lists"] = (phase_ped_lists, [None])
-    subs["genotype"] = (genotype, [None])
-    if not quick:
-        subs["genotype-ped"] = (genotype_ped, [None])
-    subs["polyphase"] = (polyphase, [1, 2, 3, 4])
-    subs["polyphase-prephasing"] = (polyphase_pre, [1, 2])
-    subs["haplotag"] = (haplotag, [1, 2, 3, 4])
-    subs["haplotag-regions"] = (haplotag_regions, [None])
-    subs["unphase"] = (unphase, [None])
-    subs["stats"] = (stats, [None])
-    subs["compare"] = (compare, [None])
+
+    def add(name, builder, thread_opts=(None,), sets=("S",), light=False, thorough_only=False):
+        if thorough_only and quick and not (only and name in only):
+            return
+        subs[name] = (builder, list(thread_opts), {"sets": list(sets), "light": light})
+    add("phase", phase)
+    add("phase-ped", phase_ped, sets=("PED", "T0", "T1"))
+    add("phase-ped-lists", phase_ped_lists)
+    add("genotype", genotype, sets=("S", "INFO"))
+    add("genotype-ped", genotype_ped, sets=("PED", "T0", "T1"), thorough_only=True)
+    add("polyphase", polyphase, [1, 2, 3, 4], sets=("POLY",))
+    add("polyphase-prephasing", polyphase_pre, [1, 2], sets=("POLY",))
+    add("polyphase-prephasing-last", polyphase_pre2, [2, 1], sets=("POLY",), light=True)
+    add("haplotag", haplotag, [1, 2, 3, 4])
+    add("haplotag-regions", haplotag_regions)
+    add("unphase", unphase)
+    add("stats", stats)
+    add("compare", compare)
     if len(P.get("singles", [])) == 3:
-        subs["compare-ignore-names"] = (compare_ignore, [None])
-    subs["split"] = (split, [None])
-    subs["haplotagphase"] = (haplotagphase, [None])
+        add("compare-ignore-names", compare_ignore, sets=("HT3", "S"))
+    add("split", split)
+    add("haplotagphase", haplotagphase)
+    # option variants
+    add("phase-heuristic", phase_algo("heuristic"), light=True)
+    add("phase-hapchat", phase_algo("hapchat"), light=True)
+    add("phase-heuristic-ped1", phase_heuristic_ped1, sets=("T0",), light=True)
+    add("phase-pedsamples-lists", phase_pedsamples_lists, sets=("T0", "T1", "PED"), light=True)
+    add("phase-samples", phase_samples, sets=("SUB", "S"), light=True)
+    add("phase-merge-reads", phase_merge_reads, light=True)
+    add("phase-ignore-rg", phase_ignore_rg, light=True)
+    add("phase-ped-nogenetic", phase_ped_nogenetic, sets=("S", "T0", "T1"), light=True)
+    add("phase-vcf-input", phase_vcf_input, light=True, thorough_only=True)
+    add("phase-supplementary", phase_supplementary, light=True, thorough_only=True)
+    add("genotype-nopriors-ped", genotype_nopriors_ped, sets=("T0", "T1", "S"), light=True)
+    add("genotype-nopriors-pedsamples", genotype_nopriors_pedsamples, sets=("T0", "T1", "PED"), light=True)
+    add("genotype-ped-prioroutput", genotype_ped_prioroutput, sets=("T0", "T1", "PED"), light=True)
+    add("genotype-samples", genotype_samples, sets=("SUB",), light=True)
+    add("genotype-ignore-rg", genotype_ignore_rg, light=True)
+    add("haplotag-ignore-rg-samples", ht(["--ignore-read-groups"] + sample_args(S["HT3"])), sets=("HT3",), light=True)
+    add("haplotag-ignore-rg-linked", ht(["--ignore-read-groups", "--tag-supplementary"] + sample_args(S["HT2"]), P["bam_supp"]),
+        sets=("HT2",), light=True)
+    add("haplotag-supplementary", ht(["--tag-supplementary", "--output-threads", "2"], P["bam_supp"]), light=True)
+    add("haplotag-samples", ht(["--ignore-linked-read"] + sample_args(S["HT3"]), P["bam_supp"]), sets=("HT3", "S"), light=True)
+    add("haplotag-noref", ht(["--no-reference", "--skip-missing-contigs", "--linked-read-distance-cutoff", "50"], P["bam_supp"]),
+        light=True, thorough_only=True)
+    add("polyphase-distrust-haploid", pp(["--distrust-genotypes", "--include-haploid-sets"]), [1, 2], sets=("POLY",), light=True)
+    add("polyphase-samples", pp(["--sample", P["psamples"][-1], "--sample", P["psamples"][0], "--chromosome", PC[-1], "--chromosome",
+                                 PC[0], "--no-mav"]), [2, 1], sets=("POLY",), light=True)
+    add("polyphase-options", pp(["--ce-bundle-edges", "--min-overlap", "1", "--tag", "HP", "--verify-genotypes"]), [1, 2],
+        sets=("POLY",), light=True)
+    add("polyphase-prephasing-distrust", pp(["--use-prephasing", "--distrust-genotypes"], P["pvcf_pre"]), [1, 2], sets=("POLY",),
+        light=True, thorough_only=True)
+    add("compare-only-snvs", compare_only_snvs, light=True)
+    add("compare-poly", compare_poly, sets=("POLY",), light=True)
+    add("stats-options", stats_options, light=True)
+    add("split-options", split_options, light=True)
+    add("split-discard", split_discard, light=True)
+    add("haplotagphase-options", haplotagphase_options, light=True)
+    if P.get("single0_gz"):
+        add("haplotagphase-ignore-rg", haplotagphase_ignore_rg, light=True, thorough_only=True)
+    add("unphase-ped-phased", unphase_ped, light=True)
     return subs
+
+
+def seeds_for(P, meta, quick):
+    """the hash seeds of one subcommand: the pattern of the tier with every "C" replaced by the next covering seed of the
+    name sets this subcommand iterates over"""
+    if meta.get("light"):
+        pattern = SEEDS_LIGHT_QUICK if quick else SEEDS_LIGHT_THOROUGH
+    else:
+        pattern = SEEDS_QUICK if quick else SEEDS_THOROUGH
+    ids = [list(P["sets"]).index(k) for k in meta.get("sets", ["S"])]
+    cover = c16_inputs.covering_seeds(P["probed"], ids, 1 + pattern.count("C"))[1:] if P.get("probed") else []
+    cover = cover + [str(i) for i in range(1, 1 + pattern.count("C"))]       # fallback: 1, 2, 3, ...
+    out, k = [], 0
+    for s in pattern:
+        if s == "C":
+            out.append(cover[k]); k += 1
+        else:
+            out.append(s)
+    return out
 
 
 def run_variant(ctx, builder, d, tag, seed, threads, keep=False):
@@ -290,6 +569,8 @@ def run_variant(ctx, builder, d, tag, seed, threads, keep=False):
     rc, so, se, _ = sim.whatshap(args, ctx.overlay, env_extra={"PYTHONHASHSEED": seed}, timeout=900)
     views = {}
     if rc != 0:
+        if not keep:
+            shutil.rmtree(o, ignore_errors=True)
         return rc, (se.strip().splitlines() or [""])[-1][:300], views
     for label, (path, kind) in outs.items():
         if path == "<stdout>":
@@ -303,76 +584,186 @@ def run_variant(ctx, builder, d, tag, seed, threads, keep=False):
     return rc, "", views
 
 
+PHASE_TAGS = ("HP:", "PC:", "PS:")
+
+
+def only_phase_tags_differ(a, b, kind):
+    """two record lists (BAM records as text / haplotag list rows) that agree in everything but the haplotype assignment"""
+    if len(a) != len(b):
+        return False
+    for x, y in zip(a, b):
+        if x == y:
+            continue
+        fx, fy = x.split("\t"), y.split("\t")
+        if kind == "bam":
+            if fx[:11] != fy[:11] or sorted(t for t in fx[11:] if not t.startswith(PHASE_TAGS)) != sorted(
+                    t for t in fy[11:] if not t.startswith(PHASE_TAGS)):
+                return False
+        elif len(fx) != 4 or len(fy) != 4 or (fx[0], fx[3]) != (fy[0], fy[3]):
+            return False
+    return True
+
+
+def only_gl_rounding_differs(a, b):
+    """two lists of genotype VCF records that agree in everything but the last digits of GL values (same GT and GQ)"""
+    if len(a) != len(b):
+        return False
+    for x, y in zip(a, b):
+        if x == y:
+            continue
+        fx, fy = x.split("\t"), y.split("\t")
+        if fx[:9] != fy[:9] or len(fx) != len(fy) or "GL" not in fx[8].split(":"):
+            return False
+        g = fx[8].split(":").index("GL")
+        for cx, cy in zip(fx[9:], fy[9:]):
+            px, py = cx.split(":"), cy.split(":")
+            if len(px) != len(py) or px[:g] + px[g + 1:] != py[:g] + py[g + 1:]:
+                return False
+            vx, vy = px[g].split(","), py[g].split(",")
+            if len(vx) != len(vy):
+                return False
+            for u, v in zip(vx, vy):
+                if u == v:
+                    continue
+                try:
+                    u, v = float(u), float(v)
+                except ValueError:
+                    return False
+                if abs(u - v) > 1e-9 and abs(u - v) > 1e-3 * max(abs(u), abs(v)):
+                    return False
+    return True
+
+
+def finding_key(name, label, bv, vv):
+    """a specific key for the known hash-seed dependencies of the unchanged code; None = anything else"""
+    if name == "compare-ignore-names" and label == "multiway" and len(bv) == len(vv) and all(
+            x.split("\t")[1:] == y.split("\t")[1:] for x, y in zip(bv, vv)):
+        return K_F47      # only the sample column differs: "_".join(set(sample_names))
+    if name.startswith("haplotag-ignore-rg") and label in ("bam", "taglist") and only_phase_tags_differ(
+            bv, vv, "bam" if label == "bam" else "list"):
+        return K_F110     # read groups ignored, several --sample: the sample iterated last decides every read
+    if name.startswith("genotype") and label in ("vcf", "priors") and only_gl_rounding_differs(bv, vv):
+        return K_FC16A    # family members in frozenset order -> numeric ids -> order of the floating point sums of the DP
+    if name == "phase-pedsamples-lists" and label == "gtchanges" and sorted(bv) == sorted(vv):
+        return K_F112     # same rows, the rows of one record in family-member order = list(set) of the PED samples
+    return None
+
+
+def variants_of(P, name, thread_opts, meta, quick):
+    seeds = seeds_for(P, meta, quick)
+    variants = [(s, thread_opts[i % len(thread_opts)]) for i, s in enumerate(seeds)]
+    if len(thread_opts) > 1:
+        # every thread count at the baseline seed as well
+        variants += [("0", t) for t in thread_opts[1:]]
+    if not (meta.get("light") and quick):
+        # literal repetition: the same command once more with the same output paths (the files of the first run exist)
+        variants.insert(1, (variants[0][0], variants[0][1]))
+        rep = 1
+    else:
+        rep = None
+    return variants, rep
+
+
 def explore(ctx, case, only=None):
     d = os.path.join(ctx.workdir(), "c16")
     shutil.rmtree(d, ignore_errors=True)
     os.makedirs(d)
     try:
         P = prepare_inputs(ctx, case, d)
-        seeds = SEEDS_QUICK if ctx.quick else SEEDS_THOROUGH
         digest = case.get("digest", "")
         if not only or "bam-order" in only:
             bam_order_check(ctx, case, P, d)
-        for name, (builder, thread_opts) in subcommands(P, ctx.quick).items():
+        plan = []
+        for name, (builder, thread_opts, meta) in subcommands(P, ctx.quick, only).items():
             if only and name not in only:
                 continue
-            variants = []
-            for i, s in enumerate(seeds):
-                variants.append((s, thread_opts[i % len(thread_opts)]))
-            if len(thread_opts) > 1:
-                # every thread count at the baseline seed as well
-                variants += [("0", t) for t in thread_opts[1:]]
-            # literal repetition: the same command once more with the same output paths (the files of the first run exist)
-            variants.insert(1, (variants[0][0], variants[0][1]))
-            base = None
-            for vi, (seed, threads) in enumerate(variants):
-                tag = f"{name}_{0 if vi == 1 else vi}"
-                rc, err, views = run_variant(ctx, builder, d, tag, seed, threads, keep=(vi == 0))
-                vdesc = f"PYTHONHASHSEED={seed}" + (f" threads={threads}" if threads is not None else "")
-                if base is None:
-                    if rc != 0:
-                        ctx.observe(f"{name}: baseline run failed: {err}")
-                        break
-                    base = (vdesc, views)
-                    continue
-                ctx.evaluated()
-                ctx.dist("subcommand", name)
-                ctx.dist("variant", vdesc if seed != "random" else vdesc)
-                sub_case = dict(case, only=[name])
-                if rc != 0:
-                    ctx.fail(f"{name}: run under {vdesc} failed ({err}) while {base[0]} succeeded", sub_case,
-                             key=f"{name}:crash-under-variant")
-                    continue
-                nontrivial = False
-                for label, bv in base[1].items():
-                    vv = views.get(label)
-                    if bv is None or vv is None:
-                        if bv != vv:
-                            ctx.fail(f"{name}: output {label} written under {base[0]} xor {vdesc}", sub_case,
-                                     key=f"{name}:{label}:missing")
+            variants, rep = variants_of(P, name, thread_opts, meta, ctx.quick)
+            plan.append((name, builder, variants, rep))
+        # all runs are independent processes: executed by a small pool; the literal repetition follows its baseline run
+        results = {}
+
+        def chain(name, builder, variants, rep):
+            seed, threads = variants[0]
+            out = {0: run_variant(ctx, builder, d, f"{name}_0", seed, threads, keep=True)}
+            if rep is not None:
+                out[rep] = run_variant(ctx, builder, d, f"{name}_0", variants[rep][0], variants[rep][1], keep=True)
+            shutil.rmtree(os.path.join(d, f"run_{name}_0"), ignore_errors=True)
+            return out
+
+        with ThreadPoolExecutor(max_workers=JOBS) as ex:
+            futs = []
+            for name, builder, variants, rep in plan:
+                futs.append((name, None, ex.submit(chain, name, builder, variants, rep)))
+            for name, builder, variants, rep in plan:
+                for vi, (seed, threads) in enumerate(variants):
+                    if vi == 0 or vi == rep:
                         continue
-                    if bv[1] != vv[1]:
-                        key = f"{name}:{label}:records"
-                        if name == "compare-ignore-names" and label == "multiway" and len(bv[1]) == len(vv[1]) and all(
-                                x.split("\t")[1:] == y.split("\t")[1:] for x, y in zip(bv[1], vv[1])):
-                            key = K_F47      # only the sample column differs: "_".join(set(sample_names))
-                        ctx.fail(f"{name}: {label} records differ between {base[0]} and {vdesc}: {first_diff(bv[1], vv[1])}",
-                                 sub_case, key=key)
-                    elif bv[0] != vv[0]:
-                        if collections.Counter(bv[0]) == collections.Counter(vv[0]):
-                            ctx.observe(f"{name}: order of header lines of {label} depends on the run (F6); records identical")
-                        else:
-                            ctx.fail(f"{name}: {label} header lines differ between {base[0]} and {vdesc}: "
-                                     f"{sorted(set(bv[0]) ^ set(vv[0]))[:4]}", sub_case, key=f"{name}:{label}:header")
-                    if bv[1]:
-                        nontrivial = True
-                if nontrivial:
-                    ctx.nontrivial(f"{name}|{vdesc}|{vi}|{digest}")
-            if base is not None:
-                ctx.sample({"subcommand": name, "variants": [f"{s}/{t}" for s, t in variants],
-                            "records": {k: (len(v[1]) if v else None) for k, v in base[1].items()}})
+                    futs.append((name, vi, ex.submit(run_variant, ctx, builder, d, f"{name}_{vi}", seed, threads)))
+            for name, vi, fut in futs:
+                r = fut.result()
+                if vi is None:
+                    for k, v in r.items():
+                        results[(name, k)] = v
+                else:
+                    results[(name, vi)] = r
+        for name, builder, variants, rep in plan:
+            compare_runs(ctx, case, name, variants, rep, results, digest)
     finally:
         shutil.rmtree(d, ignore_errors=True)
+
+
+def compare_runs(ctx, case, name, variants, rep, results, digest):
+    def vdesc_of(vi):
+        seed, threads = variants[vi]
+        return f"PYTHONHASHSEED={seed}" + (f" threads={threads}" if threads is not None else "") + (" (repeated)" if vi == rep else "")
+    sub_case = dict(case, only=[name])
+    ok_runs = [vi for vi in range(len(variants)) if results[(name, vi)][0] == 0]
+    if not ok_runs:
+        # not a question of this property: the command fails whatever the seed
+        ctx.observe(f"{name}: fails under every variant: {results[(name, 0)][1]}")
+        return
+    ref = ok_runs[0]              # the reference run: the baseline, or the first run that succeeded
+    base_views = results[(name, ref)][2]
+    base_desc = vdesc_of(ref)
+    for vi in range(len(variants)):
+        if vi == ref:
+            continue
+        rc, err, views = results[(name, vi)]
+        vdesc = vdesc_of(vi)
+        ctx.evaluated()
+        ctx.dist("subcommand", name)
+        ctx.dist("variant", vdesc)
+        if rc != 0:
+            key = f"{name}:crash-under-variant"
+            if name == "phase-heuristic-ped1" and "AssertionError" in err:
+                key = K_F111      # family members in list(set) order, super-reads in numeric-id order
+            ctx.fail(f"{name}: run under {vdesc} failed ({err}) while {base_desc} succeeded", sub_case, key=key)
+            ctx.nontrivial(f"{name}|{vdesc}|{vi}|{digest}")
+            continue
+        nontrivial = False
+        for label, bv in base_views.items():
+            vv = views.get(label)
+            if bv is None or vv is None:
+                if bv != vv:
+                    ctx.fail(f"{name}: output {label} written under {base_desc} xor {vdesc}", sub_case,
+                             key=f"{name}:{label}:missing")
+                continue
+            if bv[1] != vv[1]:
+                key = finding_key(name, label, bv[1], vv[1]) or f"{name}:{label}:records"
+                ctx.fail(f"{name}: {label} records differ between {base_desc} and {vdesc}: {first_diff(bv[1], vv[1])}",
+                         sub_case, key=key)
+            elif bv[0] != vv[0]:
+                if collections.Counter(bv[0]) == collections.Counter(vv[0]):
+                    ctx.observe(f"{name}: order of header lines of {label} depends on the run (F6); records identical")
+                else:
+                    ctx.fail(f"{name}: {label} header lines differ between {base_desc} and {vdesc}: "
+                             f"{sorted(set(bv[0]) ^ set(vv[0]))[:4]}", sub_case, key=f"{name}:{label}:header")
+            if bv[1]:
+                nontrivial = True
+        if nontrivial:
+            ctx.nontrivial(f"{name}|{vdesc}|{vi}|{digest}")
+    ctx.sample({"subcommand": name, "variants": [f"{s}/{t}" for s, t in variants],
+                "records": {k: (len(v[1]) if v else None) for k, v in base_views.items()}})
 
 
 # ------------------------------------------------------------------------------------------------
@@ -603,11 +994,37 @@ def bam_order_check(ctx, case, P, d):
 
 # ------------------------------------------------------------------------------------------------
 
+GAP_FRAC = 0.3
+
+
+def prephasing_can_matter(poly):
+    """the first and the last sample have at least two heterozygous variants on either side of the coverage gap of the first contig:
+    the reads give two blocks there and the pre-phased stretch across the gap (prepare_inputs) joins them, so that a run
+    that uses the pre-phasing of this sample and one that does not differ"""
+    name = list(poly.contigs)[0]
+    gap_at = int(len(poly.contigs[name]) * GAP_FRAC)
+    for s0 in (poly.samples[0], poly.samples[-1]):
+        left = right = 0
+        for i, v in enumerate(poly.variants[name]):
+            col = [h[i] for h in poly.haps[f"{s0}|{name}"]]
+            if len(set(col)) > 1:
+                if v["pos"] < gap_at:
+                    left += 1
+                else:
+                    right += 1
+        if left < 2 or right < 2:
+            return False
+    return True
+
+
 def gen_input(rng, quick, scale=1):
     fam = c16_inputs.family_scenario(rng, n_contigs=3, n_variants=(4, 7) if quick else (5, 10 * scale))
     k = rng.choice([3, 4])
-    poly = c15_poly.PolyScenario.generate(rng, ploidy=k, n_contigs=2, n_variants=(6, 10) if quick else (8, 16),
-                                          cov_per_hap=(3, 6), gap_frac=0.3, samples=("P1", "P2"))
+    for attempt in range(30):
+        poly = c15_poly.PolyScenario.generate(rng, ploidy=k, n_contigs=2, n_variants=(10, 14) if quick else (10, 16),
+                                              cov_per_hap=(3, 6), gap_frac=GAP_FRAC, samples=("P1", "P2"))
+        if prephasing_can_matter(poly):
+            break
     inp = {"family": fam.as_case(), "poly": poly.as_case()}
     return {"kind": "explore", "input": inp, "digest": str(rng.randrange(10**9))}
 
@@ -638,6 +1055,10 @@ def run(ctx):
         shutil.rmtree(ctx.workdir(), ignore_errors=True)
         return
     for _, c in ctx.corpus():
+        if c.get("kind") == "explore-gen":
+            # a generated input named by its generator seed (the whole input would be some 100 kB) and the subcommands to run
+            import random
+            c = dict(gen_input(random.Random(c["gen_seed"]), True, 1), only=c.get("only"))
         if c.get("kind") == "readsort":
             check_readsort(ctx, c)
         elif c.get("kind") == "selection":
